@@ -25,6 +25,9 @@ where
 
     fn try_from(bytes: UintRef<'a>) -> der::Result<Uint<LIMBS>> {
         let mut array = Array::default();
+        if bytes.as_bytes().len() > array.len() {
+            return Err(Tag::Integer.length_error());
+        }
         let offset = array.len().saturating_sub(bytes.len().try_into()?);
         array[offset..].copy_from_slice(bytes.as_bytes());
         Ok(Uint::from_be_byte_array(array))
